@@ -36,6 +36,7 @@ type opKind int
 const (
 	opSend opKind = iota
 	opRead
+	opIgnore
 )
 
 type op struct {
@@ -44,6 +45,10 @@ type op struct {
 	from  uint64
 	tags  []string
 	poll  bool // read like a poller: from = number of entries this task has consumed so far
+	// ignore: entries this handle is told to ignore from now on, picked (at execution
+	// time, counted back from the newest entry known) by id or by offset
+	ignBack  []int
+	ignByOff bool
 }
 
 type task struct {
@@ -69,6 +74,16 @@ type task struct {
 	// for an in-process lock of the handle that its parked sibling holds.
 	shared   bool
 	lockWait bool
+	// ignore list given to this task's handle so far (as offsets); a task with an
+	// ignore list keeps its reads out of the linearizability history
+	ign       map[uint64]bool // shared with the task that shares the handle
+	hasIgnore bool
+	mate      *task // the other task on the same handle, if any
+}
+
+type entryInfo struct {
+	tag, id string
+	off     uint64
 }
 
 // childProc is a writer running in another OS process (the same test binary in
@@ -235,6 +250,7 @@ type world struct {
 	sent     map[string]bool // every tag whose Send returned without error
 	viol     *sim.Violation
 	lastFull []string
+	entries  []entryInfo // every entry appended by an in-process Send that returned (id and offset as returned)
 	// long-log mode
 	prefilled int
 	lineEvery int
@@ -403,8 +419,11 @@ func (w *world) runTask(t *task) {
 					out.Offsets = append(out.Offsets, m.Offset)
 				}
 				w.mu.Lock()
-				for _, tg := range o.tags {
+				for i, tg := range o.tags {
 					w.sent[tg] = true
+					if t.child == nil {
+						w.entries = append(w.entries, entryInfo{tag: tg, id: msgs[i].ID, off: msgs[i].Offset})
+					}
 				}
 				w.mu.Unlock()
 			}
@@ -419,6 +438,29 @@ func (w *world) runTask(t *task) {
 			} else {
 				w.record(t.id, logInput{Send: o.tags}, out, call)
 			}
+		case opIgnore:
+			w.mu.Lock()
+			known := append([]entryInfo(nil), w.entries...)
+			w.mu.Unlock()
+			var keys []string
+			for _, b := range o.ignBack {
+				if len(known) == 0 {
+					break
+				}
+				e := known[len(known)-1-b%len(known)]
+				if o.ignByOff {
+					keys = append(keys, strconv.FormatUint(e.off, 10))
+				} else {
+					keys = append(keys, e.id)
+				}
+				t.ign[e.off] = true
+			}
+			if len(keys) > 0 {
+				if err := t.h.IgnoreMessages(keys, o.ignByOff); err != nil {
+					w.fail("ignore-list-refused", err.Error())
+				}
+				w.stats.Fault("ignore-list-given-to-a-working-handle")
+			}
 		case opRead:
 			from := o.from
 			if o.poll {
@@ -426,18 +468,32 @@ func (w *world) runTask(t *task) {
 				// read starts where the previous one ended
 				from = t.seen
 			}
+			ignAtStart := map[uint64]bool{}
+			for k := range t.ign {
+				ignAtStart[k] = true
+			}
 			ms, err := t.h.GetMessages(from)
 			out := logOutput{Err: err != nil}
 			for _, m := range ms {
 				out.Tags = append(out.Tags, tagOf(m))
 			}
-			w.record(t.id, logInput{From: from}, out, call)
+			if !t.hasIgnore {
+				w.record(t.id, logInput{From: from}, out, call)
+			}
 			if err != nil {
 				// the log is intact (every entry was written whole): a reader has no reason to fail
 				w.fail("read-returned-an-error", fmt.Sprintf("reader task %d: GetMessages(%d): %v", t.id, from, err))
 			}
 			if err == nil {
-				w.checkRead(ms, from, fmt.Sprintf("reader task %d", t.id))
+				// entries put on the ignore list while this read was under way (by the task
+				// that shares the handle) may or may not be left out
+				opt := map[uint64]bool{}
+				for k := range t.ign {
+					if !ignAtStart[k] {
+						opt[k] = true
+					}
+				}
+				w.checkRead(ms, from, fmt.Sprintf("reader task %d", t.id), t.ign, opt)
 				if o.poll {
 					if len(ms) > 0 {
 						t.seen = ms[len(ms)-1].Offset + 1 // as Poll does: saved offset = offset of the last message + 1
@@ -464,12 +520,21 @@ func (w *world) record(client int, in logInput, out logOutput, call int64) {
 }
 
 // checkRead: what a read returns is a gap-free, repeat-free run of positions.
-func (w *world) checkRead(ms []storage.Message, from uint64, who string) {
+func (w *world) checkRead(ms []storage.Message, from uint64, who string, ign map[uint64]bool, opt map[uint64]bool) {
+	next := from
 	for i, m := range ms {
-		if m.Offset != from+uint64(i) {
-			w.fail("offset-not-position", fmt.Sprintf("%s: GetMessages(%d) returned at index %d an entry carrying offset %d (tag %s)", who, from, i, m.Offset, tagOf(m)))
+		for ign[next] && !(opt[next] && m.Offset == next) {
+			next++ // entries the handle was told to ignore are left out, nothing else
+		}
+		if m.Offset != next {
+			sig := "offset-not-position"
+			if len(ign) > 0 {
+				sig = "read-with-ignore-list-wrong"
+			}
+			w.fail(sig, fmt.Sprintf("%s: GetMessages(%d) returned at index %d an entry carrying offset %d, expected %d (tag %s, %d entries ignored)", who, from, i, m.Offset, next, tagOf(m), len(ign)))
 			return
 		}
+		next++
 		if d := contentDiff(m); d != "" {
 			w.fail("entry-read-back-differs-from-what-was-sent", fmt.Sprintf("%s: GetMessages(%d) returned at index %d the entry with tag %s carrying %s", who, from, i, tagOf(m), d))
 			return
@@ -701,7 +766,7 @@ func (w *world) run(tier string) (bool, interface{}) {
 			panic(err)
 		}
 		defer h.Close()
-		tk := &task{id: i, h: h, grant: make(chan struct{})}
+		tk := &task{id: i, h: h, grant: make(chan struct{}), ign: map[uint64]bool{}}
 		if i > 0 && nChildren > 0 {
 			if c, err := startChild(w.data, w.lock); err == nil {
 				tk.child = c
@@ -724,7 +789,8 @@ func (w *world) run(tier string) (bool, interface{}) {
 				continue
 			}
 			base.shared = true
-			rt := &task{id: len(w.tasks), h: base.h, grant: make(chan struct{}), shared: true}
+			rt := &task{id: len(w.tasks), h: base.h, grant: make(chan struct{}), shared: true, ign: base.ign, mate: base}
+			base.mate = rt
 			for j := 0; j < 2+tp.Choose(5, "pollerReads"); j++ {
 				rt.ops = append(rt.ops, op{kind: opRead, poll: true})
 			}
@@ -734,6 +800,19 @@ func (w *world) run(tier string) (bool, interface{}) {
 	}
 	for k := 0; k < nops; k++ {
 		t := w.tasks[tp.Choose(nw, "whichTask")]
+		if t.child == nil && tp.Choose(9, "ignore?") == 0 {
+			// the handle is told to ignore some entries (mostly the newest ones) and keeps working
+			o := op{kind: opIgnore, ignByOff: tp.Bool(1, 2, "ignoreByOffset")}
+			for j := 0; j < 1+tp.Choose(2, "ignoreCount"); j++ {
+				o.ignBack = append(o.ignBack, []int{0, 0, 1, 2, 5}[tp.Choose(5, "ignoreBack")])
+			}
+			t.ops = append(t.ops, o)
+			t.hasIgnore = true
+			if t.mate != nil {
+				t.mate.hasIgnore = true
+			}
+			continue
+		}
 		if tp.Choose(4, "readOrSend") == 0 {
 			t.ops = append(t.ops, op{kind: opRead, from: uint64(tp.Choose(6, "from")), poll: tp.Choose(2, "pollStyle") == 0})
 			continue
